@@ -67,4 +67,20 @@ theorem C20_alive_only_finalizer :
     (fin.T 0).results = [.worker (some 1), .unit] ∧ acquiredWorkers pw fin.W 0 = [0] := by
   decide
 
+set_option maxRecDepth 4000 in
+open Owner in
+/-- Why `C20_released_on_exit_shared` needs "the other threads of the pool do not acquire": thread 0 runs the finaliser
+of pool 0 over workers [0, 1]; while it is busy with worker 1, thread 1 — acting for the SAME pool — acquires worker 0,
+which the finaliser has already passed.  Thread 0 leaves its `finally` (exit marker set) and pool 0 owns worker 0.
+(This is two concurrent pool-level operations of one pool: the worker belongs to the operation that has not returned.) -/
+theorem C20_exit_shared_acquirer :
+    let pw : Pid → List Wid := fun _ => [0, 1]
+    let u : Wid → Bool := fun _ => true
+    let c0 : Cfg := ⟨fun _ => {}, fun t =>
+      if t = 0 then { script := [.finalize 0] }
+      else if t = 1 then { script := [.acquireAll 0 [0] 1] } else {}⟩
+    let fin := runSched pw c0 (List.replicate 6 (0, u) ++ List.replicate 10 (1, u) ++ List.replicate 10 (0, u))
+    (fin.T 0).cur = none ∧ (fin.T 0).exited = some 0 ∧ acquiredWorkers pw fin.W 0 = [0] := by
+  decide
+
 end MlModel.Witness
